@@ -743,8 +743,14 @@ class Path:
         return _format_path(self.path_t.__ops__[1:], self.path_t.__ops__[0])
 
 
+class _TSteps(list):
+    # a run of T steps inside a Path (as opposed to a path part that
+    # happens to be a list)
+    pass
+
+
 def _format_path(t_path, root=None):
-    path_parts, cur_t_path = [], []
+    path_parts, cur_t_path = [], _TSteps()
     i = 0
     while i < len(t_path):
         op, arg = t_path[i], t_path[i + 1]
@@ -752,7 +758,7 @@ def _format_path(t_path, root=None):
         if op == 'P':
             if cur_t_path:
                 path_parts.append(cur_t_path)
-                cur_t_path = []
+                cur_t_path = _TSteps()
             path_parts.append(arg)
         else:
             cur_t_path.append(op)
@@ -763,11 +769,11 @@ def _format_path(t_path, root=None):
     if root is None:
         root = T
     if path_parts or not cur_t_path:
-        part_reprs = [_format_t(part) if type(part) is list else bbrepr(part)
+        part_reprs = [_format_t(part) if type(part) is _TSteps else bbrepr(part)
                       for part in path_parts]
         if root is not T:
             # non-T roots (S, A) must be kept, as the first argument
-            if path_parts and type(path_parts[0]) is list:
+            if path_parts and type(path_parts[0]) is _TSteps:
                 part_reprs[0] = _format_t(path_parts[0], root)
             else:
                 part_reprs.insert(0, _format_t([], root))
